@@ -5,6 +5,8 @@ set -e
 cd "$(dirname "$0")"
 export CARGO_NET_OFFLINE=true
 mkdir -p .cache evidence replays
+# C18: the table is regenerated from the source (translator) before the development is built
+python3 tools/autotraits.py generate
 ( cd coq && coq_makefile -f _CoqProject -o Makefile >/dev/null && timeout 3000 make -j"$(nproc)" 2>&1 | grep -v '^COQC\|^COQDEP\|Closed under the global context' | tail -20 )
 python3 - <<'PY'
 import sys, os
